@@ -12,6 +12,7 @@ require (
 	github.com/libp2p/go-libp2p v0.48.0
 	github.com/starknet-io/starknet-p2p-specs v0.0.0-00010101000000-000000000000
 	go.uber.org/zap v1.28.0
+	golang.org/x/crypto v0.54.0
 )
 
 require (
@@ -152,7 +153,6 @@ require (
 	go.uber.org/dig v1.19.0 // indirect
 	go.uber.org/fx v1.24.0 // indirect
 	go.uber.org/multierr v1.11.0 // indirect
-	golang.org/x/crypto v0.54.0 // indirect
 	golang.org/x/exp v0.0.0-20260603202125-055de637280b // indirect
 	golang.org/x/net v0.57.0 // indirect
 	golang.org/x/sync v0.22.0 // indirect
